@@ -13,6 +13,11 @@ Nothing is ever committed to /repo.
 import argparse, json, os, re, shutil, subprocess, sys, tempfile, time
 
 ENV = dict(os.environ, GOFLAGS="-mod=mod", GOPROXY="off", GOSUMDB="off", GOTOOLCHAIN="local")
+# The tree the change is applied to and the framework that checks it. Default: /repo itself and this checkout of /verif
+# (the way a seeded change is meant to be run). For regression sweeps over ALL kept changes, tools/reeval_all.py --scratch
+# runs a clone of /verif against a scratch worktree of /repo HEAD instead, so that /repo and /verif stay usable meanwhile.
+REPO = os.environ.get("VERIF_REPO") or "/repo"
+VERIF = os.path.dirname(os.path.dirname(os.path.abspath(__file__)))
 
 
 def sh(cmd, cwd=None, timeout=1800):
@@ -53,11 +58,11 @@ def main():
     meta = json.load(open(os.path.join(src, "meta.json")))
     props = [p for p in (a.props or meta.get("property", "")).split(",") if p]
     patch = os.path.join(src, "patch.diff")
-    ran = {"date": time.strftime("%Y-%m-%dT%H:%M:%SZ", time.gmtime()), "repo_head": sh("git -C /repo rev-parse --short HEAD")[1].strip()}
+    ran = {"date": time.strftime("%Y-%m-%dT%H:%M:%SZ", time.gmtime()), "repo_head": sh(["git", "-C", REPO, "rev-parse", "--short", "HEAD"])[1].strip()}
 
-    rc, out = sh(["git", "-C", "/repo", "apply", "--check", patch])
+    rc, out = sh(["git", "-C", REPO, "apply", "--check", patch])
     if rc != 0:
-        rc3, out3 = sh(["git", "-C", "/repo", "apply", "--check", "-3", patch])
+        rc3, out3 = sh(["git", "-C", REPO, "apply", "--check", "-3", patch])
         print("patch does not apply cleanly to /repo HEAD:", out.strip()[:500])
         ran["applies"] = False
         sys.exit(2)
@@ -66,7 +71,7 @@ def main():
     if not a.skip_confirm:
         wt = tempfile.mkdtemp(prefix="mutconfirm-", dir="/tmp")
         os.rmdir(wt)
-        sh(["git", "-C", "/repo", "worktree", "add", "-q", "--detach", wt, "HEAD"])
+        sh(["git", "-C", REPO, "worktree", "add", "-q", "--detach", wt, "HEAD"])
         try:
             # demo install: copy demo/ tree preserving relative paths when meta gives none
             def install_demo():
@@ -102,21 +107,21 @@ def main():
             if not ok:
                 ran["existing_tests_tail"] = o
         finally:
-            sh(["git", "-C", "/repo", "worktree", "remove", "--force", wt])
+            sh(["git", "-C", REPO, "worktree", "remove", "--force", wt])
 
     # our checks against the change, applied to /repo itself and undone straight afterwards
     results = {}
     # evidence files describe runs on the UNCHANGED tree: keep them out of reach of these runs
     saved = {}
     for p in props:
-        ep = os.path.join("/verif/evidence", p + ".json")
+        ep = os.path.join(VERIF, "evidence", p + ".json")
         if os.path.exists(ep):
             saved[ep] = open(ep).read()
-    sh(["git", "-C", "/repo", "apply", patch])
+    sh(["git", "-C", REPO, "apply", patch])
     try:
         for p in props:
             t0 = time.time()
-            rc, o = sh(["./check", p, "--tier", a.tier], cwd="/verif", timeout=3000)
+            rc, o = sh(["./check", p, "--tier", a.tier], cwd=VERIF, timeout=3000)
             lines = [l for l in o.split("\n") if l.startswith(("VIOLATION", "KNOWN-FINDING", "["))]
             detected = rc != 0 and any(l.startswith("VIOLATION") for l in lines)
             rep = None
@@ -127,11 +132,11 @@ def main():
                           "no_failing_input_found": any("no-failing-input-found" in l for l in lines)}
             print(p, "DETECTED" if detected else "MISSED", lines[:2])
     finally:
-        sh("git -C /repo checkout -- . && git -C /repo clean -fdq")
+        sh("git -C %s checkout -- . && git -C %s clean -fdq" % (REPO, REPO))
         for ep, txt in saved.items():
             open(ep, "w").write(txt)
     ran["checks"] = results
-    dst = os.path.join("/verif/seeded", a.sid)
+    dst = os.path.join(VERIF, "seeded", a.sid)
     if a.skip_confirm and os.path.exists(os.path.join(dst, "meta.json")):
         # keep the confirmation recorded by an earlier full evaluation
         try:
